@@ -19,6 +19,8 @@
 //     connected;
 //   * `note server-full` : from here on handshakes reach a server whose seats are all taken by live sessions; the
 //     expectations that follow (`expect-up`, `expect-payload`) are also judged under C10 ("without disturbing existing sessions");
+//   * `note others-changed` : from here on ANOTHER client has left and a new one has joined; the expectations that follow
+//     (`expect-up`, `expect-payload`) about the sessions nobody ended are also judged under C11 (`nc-other-clients-undisturbed`);
 //   * `note rt` : the next two ops are an encode/decode (seal/open, write/read) pair that must round-trip;
 //   * `note mutated` : the next op decodes/opens a tampered sealed input: it must not answer `ok`;
 //   * `note setup-done` : end of the configuration prefix (kept by the shrinker).
@@ -3099,7 +3101,7 @@ fn script_wire(rng: &mut Rng, tier: Tier, f: &mut dyn FnMut(&str) -> String) {
 // profile 0: nc-regress — one fixed op list per repaired defect (deterministic, run on every check)
 // =============================================================================================
 
-const REGRESS_CASES: usize = 63;
+const REGRESS_CASES: usize = 67;
 
 fn regress_script(case: usize, f: &mut dyn FnMut(&str) -> String) {
     let mut rng = Rng::new(0xD1CE + case as u64);
@@ -3117,7 +3119,7 @@ fn regress_script(case: usize, f: &mut dyn FnMut(&str) -> String) {
     };
     let max = match case {
         7 | 19 | 22 | 37 => 1,
-        35 | 50 => 4,
+        35 | 50 | 65 | 66 => 4,
         13 => 3,
         _ => 2,
     };
@@ -5214,6 +5216,162 @@ fn regress_script(case: usize, f: &mut dyn FnMut(&str) -> String) {
                 sc.op("srv-dump 0");
             }
         }
+        // a server that has been up for a minute (59.95 s when the victim's request arrives). The victim holds its
+        // challenge; two ticks later (60.05 s after construction) the server answers ONE MORE connection request — 63: a
+        // second honest client's, 64: a late network duplicate of the victim's own request — and only then the victim's
+        // Response arrives. Nothing is lost from here on, five send periods: the victim (63: both clients) is connected
+        // on both sides. (A challenge stays answerable however many other challenges the server has issued since.)
+        63 | 64 => {
+            sc.op("srv-upd 0 59950000");
+            let va = a4(10, 9, 12, 1, 4971);
+            let oa = a4(10, 9, 12, 2, 4972);
+            let mut specs: Vec<TokSpec> = vec![];
+            for j in 0..2u64 {
+                let mut spec = base_spec(rng, 90 + j, proto, key, 64, &hosts);
+                spec.expire = 99;
+                spec.seal_expire = 99;
+                spec.timeout = 5;
+                spec.ud = vec![0xf0 + j as u8; 256];
+                specs.push(spec);
+            }
+            let Some(v) = new_client(&mut sc, 5, &va, &specs[0], 64_950_000) else { return };
+            let Some(k) = sc.opd("cli-upd 5 0").1 else { return };
+            let rq = sc.hist[k].bytes.clone();
+            let Some(k) = sc.opd(&format!("srv-rx 0 {} {}", va, hex(&rq))).1 else { return };
+            let ch = sc.hist[k].bytes.clone();
+            sc.op(&format!("cli-rx 5 {}", hex(&ch)));
+            sc.op("srv-dump 0");
+            sc.op("srv-upd 0 100000");
+            let mut live: Vec<(u64, u64, String)> = vec![(v.h, 90, va.clone())];
+            if case == 63 {
+                let Some(o) = new_client(&mut sc, 6, &oa, &specs[1], 65_050_000) else { return };
+                let Some(k) = sc.opd("cli-upd 6 0").1 else { return };
+                let rq2 = sc.hist[k].bytes.clone();
+                let Some(k) = sc.opd(&format!("srv-rx 0 {} {}", oa, hex(&rq2))).1 else { return };
+                let ch2 = sc.hist[k].bytes.clone();
+                sc.op(&format!("cli-rx 6 {}", hex(&ch2)));
+                live.push((o.h, 91, oa.clone()));
+            } else {
+                // the second copy of the request: answered with another challenge, which the client (already answering
+                // the first one) receives as well
+                let Some(k) = sc.opd(&format!("srv-rx 0 {} {}", va, hex(&rq))).1 else { return };
+                let ch2 = sc.hist[k].bytes.clone();
+                sc.op(&format!("cli-rx 5 {}", hex(&ch2)));
+            }
+            sc.op("srv-dump 0");
+            // lossless from here on: the victim's clock catches up with the server's in its first update
+            let mut first = true;
+            for _round in 0..5 {
+                for (h, id, a) in live.iter() {
+                    let dt = if first && *h == 5 { 100_000 } else if first { 0 } else { 250_000 };
+                    if let (_, Some(k)) = sc.opd(&format!("cli-upd {} {}", h, dt)) {
+                        let d = sc.hist[k].bytes.clone();
+                        if let (_, Some(k)) = sc.opd(&format!("srv-rx 0 {} {}", a, hex(&d))) {
+                            let r = sc.hist[k].bytes.clone();
+                            sc.op(&format!("cli-rx {} {}", h, hex(&r)));
+                        }
+                    }
+                    if let (_, Some(k)) = sc.opd(&format!("srv-updc 0 {}", id)) {
+                        let r = sc.hist[k].bytes.clone();
+                        sc.op(&format!("cli-rx {} {}", h, hex(&r)));
+                    }
+                }
+                first = false;
+                sc.op("srv-upd 0 250000");
+            }
+            for (h, id, _) in live.iter() {
+                sc.op("note expect-up:handshake-stalled");
+                sc.op(&format!("cli-q {}", h));
+                sc.op("note expect-up:handshake-stalled");
+                sc.op(&format!("srv-q 0 {}", id));
+            }
+            sc.op("srv-dump 0");
+        }
+        // a four-seat server with three sessions in table slots 0, 1, 2 (ids 40, 41, 93). One that does NOT hold the highest
+        // used slot leaves (65: the first, by its own Disconnect datagram; 66: the middle one, disconnected by the server),
+        // then a fourth client (id 94) completes the handshake. The two sessions nobody ended and the new one go on as if
+        // nothing had happened: the server still knows each of them under its id, payloads flow both ways, keep-alives
+        // keep them up on both sides.
+        65 | 66 => {
+            let mut more: Vec<Cl> = vec![];
+            for j in 0..2u64 {
+                let mut spec = base_spec(rng, 93 + j, proto, key, 5, &hosts);
+                spec.expire = 35;
+                spec.seal_expire = 35;
+                spec.timeout = 5;
+                spec.ud = vec![0xc0 + j as u8; 256];
+                if let Some(c) = new_client(&mut sc, 5 + j, &a4(10, 9, 13, 1 + j as u8, 4981 + j as u16), &spec, 5_000_000) {
+                    more.push(c);
+                }
+            }
+            if more.len() < 2 {
+                return;
+            }
+            let all: Vec<(u64, u64, String)> = vec![(0, 40, cls[0].addr.clone()), (1, 41, cls[1].addr.clone()), (5, 93, more[0].addr.clone()), (6, 94, more[1].addr.clone())];
+            if !fast_connect(&mut sc, &cls[0]) || !fast_connect(&mut sc, &cls[1]) || !fast_connect(&mut sc, &more[0]) {
+                return;
+            }
+            let exchange = |sc: &mut Sc, who: &[(u64, u64, String)], tag: u8, judged: bool| {
+                for (h, id, a) in who.iter() {
+                    if judged {
+                        sc.op("note expect-up:other-session-lost");
+                        sc.op(&format!("srv-q 0 {}", id));
+                    }
+                    if let (_, Some(k)) = sc.opd(&format!("cli-pay {} {:02x}{:02x}0b", h, *id as u8, tag)) {
+                        let d = sc.hist[k].bytes.clone();
+                        sc.op("note expect-payload");
+                        sc.op(&format!("srv-rx 0 {} {}", a, hex(&d)));
+                    }
+                    if let (_, Some(k)) = sc.opd(&format!("srv-pay 0 {} {:02x}{:02x}d0", id, *id as u8, tag)) {
+                        let d = sc.hist[k].bytes.clone();
+                        sc.op("note expect-payload");
+                        sc.op(&format!("cli-rx {} {}", h, hex(&d)));
+                    }
+                }
+            };
+            exchange(&mut sc, &all[..3], 0, false);
+            sc.op("srv-dump 0");
+            let leaver = if case == 65 { 0usize } else { 1 };
+            if case == 65 {
+                if let (_, Some(k)) = sc.opd("cli-disc 0") {
+                    let d = sc.hist[k].bytes.clone();
+                    sc.op(&format!("srv-rx 0 {} {}", all[0].2, hex(&d)));
+                }
+            } else if let (_, Some(k)) = sc.opd("srv-disc 0 41") {
+                let d = sc.hist[k].bytes.clone();
+                sc.op(&format!("cli-rx 1 {}", hex(&d)));
+            }
+            sc.op("srv-dump 0");
+            let rest: Vec<(u64, u64, String)> = all.iter().enumerate().filter(|(i, _)| *i != leaver).map(|(_, x)| x.clone()).collect();
+            exchange(&mut sc, &rest[..2], 1, false);
+            // the fourth client joins
+            if !fast_connect(&mut sc, &more[1]) {
+                return;
+            }
+            sc.op("note others-changed");
+            sc.op("srv-dump 0");
+            for round in 0..3u8 {
+                exchange(&mut sc, &rest, 2 + round, true);
+                sc.op("srv-upd 0 250000");
+                for (h, id, a) in rest.iter() {
+                    if let (_, Some(k)) = sc.opd(&format!("srv-updc 0 {}", id)) {
+                        let r = sc.hist[k].bytes.clone();
+                        sc.op(&format!("cli-rx {} {}", h, hex(&r)));
+                    }
+                    if let (_, Some(k)) = sc.opd(&format!("cli-upd {} 250000", h)) {
+                        let d = sc.hist[k].bytes.clone();
+                        sc.op(&format!("srv-rx 0 {} {}", a, hex(&d)));
+                    }
+                }
+            }
+            for (h, id, _) in rest.iter() {
+                sc.op("note expect-up:other-session-lost");
+                sc.op(&format!("srv-q 0 {}", id));
+                sc.op("note expect-up:other-session-lost");
+                sc.op(&format!("cli-q {}", h));
+            }
+            sc.op("srv-dump 0");
+        }
         // sequence 2^64-1 (the window's EMPTY sentinel) from the owner of a session
         _ => {
             fast_connect(&mut sc, &cls[0]);
@@ -5296,7 +5454,7 @@ fn regress_ops(case: usize) -> Vec<String> {
 /// To refresh after editing a script: `NC_FIXED_COUNTS=1 harness run --props C10 --profiles nc-regress,…` prints them.
 fn fixed_expected(tag: &str, case: usize) -> Option<usize> {
     const REGRESS: &[usize] = &[
-        30, 30, 30, 12, 16, 17, 24, 23, 30, 19, 21, 35, 33, 49, 551, 60, 85, 35, 50, 59, 69, 56, 43, 34, 26, 148, 104, 41, 49, 26, 44, 63, 36, 31, 38, 116, 26, 34, 70, 52, 541, 31, 42, 33, 30, 53, 52, 54, 103, 92, 63, 125, 32, 45, 68, 29, 129, 652, 675, 45, 50, 41, 52,
+        30, 30, 30, 12, 16, 17, 24, 23, 30, 19, 21, 35, 33, 49, 551, 60, 85, 35, 50, 59, 69, 56, 43, 34, 26, 148, 104, 41, 49, 26, 44, 63, 36, 31, 38, 116, 26, 34, 70, 52, 541, 31, 42, 33, 30, 53, 52, 54, 103, 92, 63, 125, 32, 45, 68, 29, 129, 652, 675, 45, 50, 41, 52, 78, 50, 198, 198,
     ];
     match tag {
         "regress" => REGRESS.get(case).copied(),
@@ -6183,7 +6341,7 @@ pub fn profiles() -> Vec<Profile> {
         },
         Profile {
             name: "nc-regress",
-            props: &["C07", "C17", "C05", "C10", "C18", "C16", "C19", "C04", "C20", "C13"],
+            props: &["C07", "C17", "C05", "C10", "C18", "C16", "C19", "C04", "C20", "C13", "C11"],
             cases: |_| REGRESS_CASES,
             new_world,
             script: |_, _, _| {},
@@ -7608,6 +7766,29 @@ fn oracle_full_undisturbed(ops: &[String], outs: &[String]) -> Option<OracleFail
     None
 }
 
+/// C11 ("misbehaviour, disconnection … of one client … never delays, drops or corrupts traffic of other clients"), at the
+/// netcode layer that carries every client's traffic: in a trace in which the script marks the moment
+/// from which ANOTHER client has left and a new one has joined (`note others-changed`), the expectations the script states
+/// AFTER the mark about the sessions nobody ended are judged under this property as well:
+///   * `note expect-up:<sig>` before a `srv-q` / `cli-q`: that side of the session is still connected;
+///   * `note expect-payload`: a fresh in-window genuine payload datagram handed to a session that the event stream still
+///     shows connected is surfaced (the `genuine-not-surfaced` clause of the payload oracle).
+/// Traces without the mark are not judged.
+fn oracle_others_undisturbed(ops: &[String], outs: &[String]) -> Option<OracleFail> {
+    let mark = ops.iter().position(|o| o == "note others-changed")?;
+    let n = ops.len().min(outs.len());
+    if mark < n {
+        if let Some(f) = oracle_expect_up(&ops[mark..n], &outs[mark..n]) {
+            return fail(mark + f.at, &format!("other-clients-disturbed:{}", f.signature), format!("after another client left and a new one joined, a session nobody ended is gone: {}", f.what));
+        }
+    }
+    let f = oracle_payloads_f(ops, outs, |sig| sig.starts_with("genuine-not-surfaced"))?;
+    if f.at > mark {
+        return fail(f.at, &format!("other-clients-disturbed:{}", f.signature), format!("after another client left and a new one joined: {}", f.what));
+    }
+    None
+}
+
 fn oracle_payloads_f(ops: &[String], outs: &[String], keep: fn(&str) -> bool) -> Option<OracleFail> {
     macro_rules! bail {
         ($i:expr, $sig:expr, $msg:expr $(,)?) => {{
@@ -8777,7 +8958,7 @@ const FIXED_PROFILES: &[&str] = &["nc-regress", "nc-known", "nc-table-full", "nc
 
 pub fn oracles() -> Vec<Oracle> {
     let mut v = oracles_main();
-    for prop in ["C04", "C05", "C07", "C10", "C13", "C16", "C17", "C18", "C19", "C20"] {
+    for prop in ["C04", "C05", "C07", "C10", "C11", "C13", "C16", "C17", "C18", "C19", "C20"] {
         v.push(Oracle { prop, name: "nc-fixed-script-complete", engines: FIXED_PROFILES, check: oracle_fixed_complete });
     }
     v
@@ -8803,6 +8984,7 @@ fn oracles_main() -> Vec<Oracle> {
         Oracle { prop: "C05", name: "nc-reported-connected", engines: &["nc-handshake", "nc-attacker", "nc-session", "nc-hostile", "nc-regress"], check: oracle_reported_connected },
         Oracle { prop: "C10", name: "nc-connect-user-data", engines: &["nc-attacker", "nc-regress", "nc-handshake"], check: oracle_connect_user_data },
         Oracle { prop: "C10", name: "nc-full-server-sessions-undisturbed", engines: &["nc-regress"], check: oracle_full_undisturbed },
+        Oracle { prop: "C11", name: "nc-other-clients-undisturbed", engines: &["nc-regress"], check: oracle_others_undisturbed },
         Oracle { prop: "C04", name: "nc-window-once", engines: &["nc-window"], check: oracle_window_once },
         Oracle { prop: "C20", name: "nc-stale-handshake-harmless", engines: &["nc-attacker", "nc-regress"], check: oracle_stale_handshake_harmless },
         Oracle { prop: "C18", name: "nc-half-open-expiry", engines: &["nc-handshake", "nc-session", "nc-regress", "nc-failover", "nc-hostile", "nc-attacker", "nc-pending-full"], check: oracle_half_open_expiry },
